@@ -306,6 +306,41 @@ def rule_streams(chk, prog, tier):
     r.exhaustive = True
 
 
+# ------------------------------------------------------------------ C03.i undefined labels
+
+def rule_undefined_labels(chk, prog, tier):
+    r = chk.rule('C03.i', 'at the end of a function every label that was used but never defined is diagnosed, wherever its entry sits in the label table', floor=60,
+                 oracle='C11 6.8.6.1p1; a jmp to a block that is never placed makes the IL invalid')
+    import itertools
+    fn = prog.require_func('delfunc', 'qbe.c')
+    CAP = 4
+    for nlab in (1, 2, 3):
+        for slots in itertools.combinations(range(CAP), nlab):
+            for defined in itertools.product((0, 1), repeat=nlab):
+                def runner(it):
+                    f = Obj('func', 'heap')
+                    keys = Obj('keys', 'heap'); vals = Obj('vals', 'heap')
+                    for k in range(CAP):
+                        keys.f[(k, 'str')] = None; keys.f[(k, 'len')] = 0; keys.f[(k, 'hash')] = 0; vals.f[(k,)] = None
+                    for s_, d_ in zip(slots, defined):
+                        g = Obj('gotolabel', 'heap'); g.f[('defined',)] = d_; g.f[('label',)] = None
+                        keys.f[(s_, 'str')] = Ptr(it.mkstr(list(b'L%d' % s_), 'name'), (0,)); keys.f[(s_, 'len')] = 2
+                        vals.f[(s_,)] = Ptr(g, ())
+                    f.f.update({('gotos', 'len'): nlab, ('gotos', 'cap'): CAP, ('gotos', 'keys'): Ptr(keys, (0,)), ('gotos', 'vals'): Ptr(vals, (0,)), ('start',): None})
+                    it.models.update({'free': lambda i2, a, e: None, 'mapfree': lambda i2, a, e: None,
+                                      'error': lambda i2, a, e: (_ for _ in ()).throw(Terminal('error', cmodel.fmt_of(i2, a, 1)))})
+                    it.call(fn, [Ptr(f, ())])
+                    return 'clean'
+                runs = explore(prog, runner, {}, max_runs=4, on_unsupported='keep')
+                if len(runs) != 1 or runs[0].outcome == 'unsupported':
+                    raise AnalysisBroken('delfunc: %s' % (runs[0].detail if runs else 'no run'))
+                want_err = not all(defined)
+                got_err = runs[0].outcome == 'terminal:error'
+                r.instance(want_err == got_err, 'labels:slots=%s,defined=%s' % (slots, defined), 'qbe.c:%s' % fn.get('line'),
+                           'table of capacity %d with labels in slots %s (defined: %s): %s' % (CAP, slots, defined, 'the undefined label is not diagnosed' if want_err else 'a diagnostic is raised although every label is defined'))
+    r.exhaustive = True
+
+
 def run(chk, tier):
     prog = facts.programs()['cproc-qbe']
     chk.guard('C03.a', lambda: rule_terminators(chk, prog, tier))
@@ -314,3 +349,4 @@ def run(chk, tier):
     chk.guard('C03.h', lambda: rule_dataitem(chk, prog, tier))
     chk.guard('C03.f', lambda: rule_streams(chk, prog, tier))
     chk.guard('C03.e', lambda: c19.rule_flush(chk, prog, tier))
+    chk.guard('C03.i', lambda: rule_undefined_labels(chk, prog, tier))
